@@ -1287,4 +1287,14 @@ def run_common(ctx, prop, rep, proof_targets):
                                         "replay": "h_registry <file with the text of `case`>"}, finding=finding)
     if model is not None and prop == "C05" and n_route_bad == 0:
         rep.tie("own-default-classification", True, "model ORoute vs oracle mis-route detection agree on every case")
+    # ---- forced schedules of the reference-count micro-steps (needs the H3 registry yield points)
+    if prop == "C05":
+        import props.regsched as S
+        ok2, paths2, log2 = vlib.cargo_build(ctx, "registry", ["h_registry_sched"])
+        if not ok2:
+            rep.tie("build:h_registry_sched", False, vlib.last_error(log2))
+        else:
+            fixed = shapes_tr.analyse(ctx.repo)[3].get("clear") == 1
+            rep.count("sched: Clear for DataInner variant = %s" % ("CLOSE_COUNT reset (F51 repaired)" if fixed else "as found (F51)"))
+            S.run_leg(ctx, rep, paths2["h_registry_sched"], fixed)
     return rep
